@@ -160,7 +160,7 @@ func verif17ActionReachesEveryDistinctProducer() {
 	u := verif17NewEnv()
 	ci := verif17ClusterInfo(u)
 	a := verif17Actions[verifrt.Choice("action", len(verif17Actions))]
-	nL := 1 + verifrt.Choice("lookupds", verifrt.Bound("lookupds", 2, 3))
+	nL := 1 + verifrt.Choice("lookupds", verifrt.Bound("lookupds", 2, 2))
 	nK := 1 + verifrt.Choice("nsqds", verifrt.Bound("nsqds", 2, 3))
 	lookupds := []string{"l0:4161", "l1:4161", "l2:4161"}[:nL]
 
